@@ -62,7 +62,7 @@ var c05Leavers = []struct {
 	{"skipAfter", nil, "pass", 5, "skipAfter"},
 	{"allow", nil, "allow", 4, ""},
 	{"allow-phase", nil, "allow:phase", 5, ""},
-	{"allow-request", nil, "allow:request", 2, ""},
+	{"allow-request", nil, "allow:request", 5, ""},
 	{"deny", nil, "deny", 4, ""},
 	{"drop", nil, "drop", 4, ""},
 	{"redirect", nil, "redirect", 4, ""},
